@@ -214,6 +214,23 @@ def tab_op(run):
         missing = [w for w in want_calls if not any(w in c for c in calls)]
         run.check(not missing, R, R + "|bigint|" + name, f.loc(), "%s is built on %s" % (name.rsplit("::", 2)[-1] if "::" in name else name, want_calls),
                   "%s no longer uses %s (it calls %s): the operator would compute something else" % (name, missing, sorted(calls)))
+    # --- exact operation profile of every big-integer primitive: which value operations it is built from
+    got_prof = bigint_profile(prog)
+    want_prof = spec["bigint_profile"]
+    for name in sorted(set(got_prof) | set(want_prof)):
+        g_ = got_prof.get(name, {"value": [], "guard": []})
+        w_ = want_prof.get(name)
+        fs = prog.find(name)
+        loc = fs[0].loc() if fs else "-"
+        key = R + "|bigint-profile|" + name
+        if w_ is None:
+            run.violation(R, key, loc, "%s is a big-integer primitive that is not in the audited operation table (it uses %s)" % (name, g_["value"]))
+            continue
+        extra = sorted(set(g_["value"]) - set(w_["value"]))
+        missing = sorted(set(w_["value"]) - set(g_["value"]))
+        mg = sorted(set(w_["guard"]) - set(g_["guard"]))
+        run.check(not extra and not missing and not mg, R, key, loc, "%s is built on exactly %s (guards %s)" % (name.rsplit("::", 1)[-1], w_["value"], w_["guard"]),
+                  "%s: value operations differ from the audited definition of this primitive (new: %s, gone: %s, guards gone: %s); a second way of computing the result (fast path, rewrite with shifts and masks) must agree with the language definition for negative and sized operands and has to be re-audited" % (name, extra, missing, mg))
     # --- literal radix prefixes and bits per digit
     pr = run.anchor(R, "syntax::excerpt::parse_radix")
     if pr:
@@ -244,6 +261,26 @@ def tab_op(run):
                             got[v] = val
         run.check(got == spec["bits_per_digit"], R, R + "|bits-per-digit", eb.loc(), "sized literals: bits per digit %s" % got,
                   "the radix -> bits-per-digit table is %s, expected %s" % (got, spec["bits_per_digit"]))
+
+
+GUARD_OPS = re.compile(r"(::bits$|::sign$|^std::cmp::|::is_zero$)")
+
+
+def bigint_profile(prog):
+    prof = {}
+    for f in prog.real_fns():
+        root = f.raw.get("root") or f.id
+        if "util::bigint" not in root:
+            continue
+        for bi, t in f.calls():
+            c = t.get("callee") or ""
+            tys = " ".join(t.get("arg_tys", []))
+            big = "BigInt" in tys or "BigUint" in tys
+            if c.startswith("num_bigint") or c.startswith("num_traits") or (big and re.match(r"^std::ops::(Shl|Shr|Rem|Div|Mul|Add|Sub|Not|Neg|BitAnd|BitOr|BitXor)(Assign)?::", c)) \
+                    or (big and c.startswith("std::cmp::")) or (big and re.search(r"BigInt::(set_bit|get_bit|slice|checked_\w+|concat|min_size|sign|bits)$", c)):
+                e = prof.setdefault(root, {"value": set(), "guard": set()})
+                e["guard" if GUARD_OPS.search(c) else "value"].add(c)
+    return {k: {"value": sorted(v["value"]), "guard": sorted(v["guard"])} for k, v in prof.items()}
 
 
 def _straight(f, b, limit=5):
